@@ -1,7 +1,8 @@
 """Mechanical extraction of functions from the current working tree of the repository.
 
 Every run re-reads the files with ast.parse.  What is dropped from a function before
-verification is exactly: docstrings, `logging`/`logger` statements.  Each dropped node is recorded.  Nothing else is dropped: a statement the
+verification is exactly: docstrings, `logger = logging...` assignments and the logging CALLS (their argument expressions are kept
+and evaluated for exceptions).  Each dropped node is recorded.  Nothing else is dropped: a statement the
 executor cannot translate raises Unsupported (checker error), it is never skipped.
 """
 import ast, hashlib, os
@@ -44,6 +45,13 @@ class FuncInfo(object):
                 out.append(s)      # kept: local imports bind names through Module.resolve
                 continue
             if self._is_logging(s):
+                if isinstance(s, ast.Expr) and isinstance(s.value, ast.Call) and (s.value.args or s.value.keywords):
+                    # the call itself is dropped, its argument expressions are kept: they are evaluated eagerly by Python and can raise
+                    # (e.g. an attribute read inside "...".format(...)); the executor evaluates them for their exceptional exits only
+                    keep = ast.copy_location(ast.Expr(value=ast.copy_location(ast.Call(func=ast.copy_location(ast.Name(id='__logging_arguments__', ctx=ast.Load()), s),
+                                                                                          args=list(s.value.args) + [k.value for k in s.value.keywords], keywords=[]), s)), s)
+                    self.dropped.append('logging call at line %d (its arguments are still evaluated)' % s.lineno)
+                    out.append(keep); continue
                 self.dropped.append('logging statement at line %d' % s.lineno); continue
             for fld in ('body', 'orelse', 'finalbody'):
                 if hasattr(s, fld) and isinstance(getattr(s, fld), list) and not isinstance(s, (ast.FunctionDef, ast.ClassDef, ast.Lambda)):
